@@ -33,19 +33,20 @@ Definition nice {A} (m : M A) : Prop :=
        (exists n', w_inj w' = Stop n' /\ w_closed w' = w_closed w) \/ (w_inj w' = NoInj /\ w_closed w' = true)) /\
     (w_closed w = true -> w_closed w' = true) /\
     ((forall n, w_inj w <> Stop n) -> w_closed w' = w_closed w /\ forall n, w_inj w' <> Stop n) /\
+    (is_killed r = true -> exists n, w_inj w = Kill n) /\
     (is_killed r = false -> w_inj w' <> NoInj -> m (disarm w) = (r, disarm w')).
 
 Lemma nice_ret {A} (a : A) : nice (ret a).
-Proof. intros w r w' H. injection H as <- <-. repeat split; eauto. Qed.
+Proof. intros w r w' H. injection H as <- <-. repeat split; eauto; discriminate. Qed.
 
 Lemma nice_throw {A} e : nice (@throw A e).
-Proof. intros w r w' H. injection H as <- <-. repeat split; eauto. Qed.
+Proof. intros w r w' H. injection H as <- <-. repeat split; eauto; discriminate. Qed.
 
 Lemma nice_get_tree : nice get_tree.
-Proof. intros w r w' H. injection H as <- <-. repeat split; eauto. Qed.
+Proof. intros w r w' H. injection H as <- <-. repeat split; eauto; discriminate. Qed.
 
 Lemma nice_get_closed : nice get_closed.
-Proof. intros w r w' H. injection H as <- <-. repeat split; eauto. Qed.
+Proof. intros w r w' H. injection H as <- <-. repeat split; eauto; discriminate. Qed.
 
 Lemma nice_seq_aux {A B} (m : M A) (g : M B) w a w1 r w' :
   nice m -> nice g -> m w = (a, w1) -> g w1 = (r, w') ->
@@ -56,11 +57,12 @@ Lemma nice_seq_aux {A B} (m : M A) (g : M B) w a w1 r w' :
        (exists n', w_inj w' = Stop n' /\ w_closed w' = w_closed w) \/ (w_inj w' = NoInj /\ w_closed w' = true)) /\
     (w_closed w = true -> w_closed w' = true) /\
     ((forall n, w_inj w <> Stop n) -> w_closed w' = w_closed w /\ forall n, w_inj w' <> Stop n) /\
+    (is_killed r = true -> exists n, w_inj w = Kill n) /\
     (w_inj w' <> NoInj -> w_inj w1 <> NoInj).
 Proof.
   intros Hm Hg E1 E2.
-  destruct (Hm _ _ _ E1) as (M1 & M2 & M3 & M4 & M5 & M7 & M6). destruct (Hg _ _ _ E2) as (F1 & F2 & F3 & F4 & F5 & F7 & F6).
-  split; [|split; [|split; [|split; [|split; [|split]]]]].
+  destruct (Hm _ _ _ E1) as (M1 & M2 & M3 & M4 & M5 & M7 & M8 & M6). destruct (Hg _ _ _ E2) as (F1 & F2 & F3 & F4 & F5 & F7 & F8 & F6).
+  split; [|split; [|split; [|split; [|split; [|split; [|split]]]]]].
   - intros I. destruct (M1 I) as [I1 _]. now apply F1.
   - intros n I. destruct (M2 n I) as [I1 | [n' I1]]; [left; now apply F1 | eauto].
   - intros n I. destruct (M3 n I) as [n' I1]. eauto.
@@ -69,6 +71,10 @@ Proof.
     + right. split; [now apply F1 | auto].
   - auto.
   - intros NS. destruct (M7 NS) as [C1 NS1]. destruct (F7 NS1) as [C2 NS2]. split; [congruence | exact NS2].
+  - intros KR. destruct (F8 KR) as [n Kn]. destruct (w_inj w) as [|m0|m0|m0] eqn:Iw; eauto.
+    + destruct (M1 eq_refl) as [Y _]. congruence.
+    + destruct (M2 m0 eq_refl) as [Y | [n' Y]]; congruence.
+    + destruct (M4 m0 eq_refl) as [[n' [Y _]] | [Y _]]; congruence.
   - intros NI X. apply NI. now apply F1.
 Qed.
 
@@ -76,26 +82,26 @@ Lemma nice_bind {A B} (m : M A) (f : A -> M B) : nice m -> (forall a, nice (f a)
 Proof.
   intros Hm Hf w r w' H. unfold bind in *.
   destruct (m w) as [[a|e|] w1] eqn:E1.
-  - destruct (nice_seq_aux m (f a) w (ROk a) w1 r w' Hm (Hf a) E1 H) as (S1 & S2 & S3 & S4 & S5 & S7 & S6).
+  - destruct (nice_seq_aux m (f a) w (ROk a) w1 r w' Hm (Hf a) E1 H) as (S1 & S2 & S3 & S4 & S5 & S7 & S8 & S6).
     repeat split; auto; try apply S1; try apply S7; auto.
-    intros NK NI. destruct (Hm _ _ _ E1) as (_ & _ & _ & _ & _ & _ & M6). destruct (Hf a _ _ _ H) as (_ & _ & _ & _ & _ & _ & F6).
+    intros NK NI. destruct (Hm _ _ _ E1) as (_ & _ & _ & _ & _ & _ & _ & M6). destruct (Hf a _ _ _ H) as (_ & _ & _ & _ & _ & _ & _ & F6).
     rewrite (M6 eq_refl (S6 NI)). now apply F6.
-  - injection H as <- <-. destruct (Hm _ _ _ E1) as (M1 & M2 & M3 & M4 & M5 & M7 & M6). repeat split; auto; try apply M1; try apply M7; auto.
+  - injection H as <- <-. destruct (Hm _ _ _ E1) as (M1 & M2 & M3 & M4 & M5 & M7 & M8 & M6). repeat split; auto; try apply M1; try apply M7; auto.
     intros NK NI. now rewrite (M6 eq_refl NI).
-  - injection H as <- <-. destruct (Hm _ _ _ E1) as (M1 & M2 & M3 & M4 & M5 & M7 & M6). repeat split; auto; try apply M1; try apply M7; auto. discriminate.
+  - injection H as <- <-. destruct (Hm _ _ _ E1) as (M1 & M2 & M3 & M4 & M5 & M7 & M8 & M6). repeat split; auto; try apply M1; try apply M7; auto. discriminate.
 Qed.
 
 Lemma nice_catch {A} (m : M A) (h : cerr -> M A) : nice m -> (forall e, nice (h e)) -> nice (catch m h).
 Proof.
   intros Hm Hh w r w' H. unfold catch in *.
   destruct (m w) as [[a|e|] w1] eqn:E1.
-  - injection H as <- <-. destruct (Hm _ _ _ E1) as (M1 & M2 & M3 & M4 & M5 & M7 & M6). repeat split; auto; try apply M1; try apply M7; auto.
+  - injection H as <- <-. destruct (Hm _ _ _ E1) as (M1 & M2 & M3 & M4 & M5 & M7 & M8 & M6). repeat split; auto; try apply M1; try apply M7; auto.
     intros NK NI. now rewrite (M6 eq_refl NI).
-  - destruct (nice_seq_aux m (h e) w (RErr e) w1 r w' Hm (Hh e) E1 H) as (S1 & S2 & S3 & S4 & S5 & S7 & S6).
+  - destruct (nice_seq_aux m (h e) w (RErr e) w1 r w' Hm (Hh e) E1 H) as (S1 & S2 & S3 & S4 & S5 & S7 & S8 & S6).
     repeat split; auto; try apply S1; try apply S7; auto.
-    intros NK NI. destruct (Hm _ _ _ E1) as (_ & _ & _ & _ & _ & _ & M6). destruct (Hh e _ _ _ H) as (_ & _ & _ & _ & _ & _ & F6).
+    intros NK NI. destruct (Hm _ _ _ E1) as (_ & _ & _ & _ & _ & _ & _ & M6). destruct (Hh e _ _ _ H) as (_ & _ & _ & _ & _ & _ & _ & F6).
     rewrite (M6 eq_refl (S6 NI)). now apply F6.
-  - injection H as <- <-. destruct (Hm _ _ _ E1) as (M1 & M2 & M3 & M4 & M5 & M7 & M6). repeat split; auto; try apply M1; try apply M7; auto. discriminate.
+  - injection H as <- <-. destruct (Hm _ _ _ E1) as (M1 & M2 & M3 & M4 & M5 & M7 & M8 & M6). repeat split; auto; try apply M1; try apply M7; auto. discriminate.
 Qed.
 
 Lemma nice_step s : nice (step s).
@@ -307,7 +313,7 @@ Lemma FE_bind {A B} (m : M A) (f : A -> M B) : nice m -> FE m -> (forall a, FE (
 Proof.
   intros Nm Hm Hf w r w' H F I. unfold bind in H.
   destruct (m w) as [[a|e|] w1] eqn:E1.
-  - destruct (is_fault_inv _ F) as [n Fn]. destruct (Nm _ _ _ E1) as (_ & M2 & _ & _ & _ & _ & _).
+  - destruct (is_fault_inv _ F) as [n Fn]. destruct (Nm _ _ _ E1) as (_ & M2 & _ & _ & _ & _ & _ & _).
     destruct (M2 n Fn) as [I1 | [n' I1]].
     + destruct (Hm _ _ _ E1 F I1) as [e [X _]]. discriminate.
     + apply (Hf a _ _ _ H); [now rewrite I1 | exact I].
@@ -324,7 +330,7 @@ Proof.
   intros Nm Hm Ha Hh w r w' H F I. unfold catch in H.
   destruct (m w) as [[a|e|] w1] eqn:E1.
   - injection H as <- <-. destruct (Hm _ _ _ E1 F I) as [e [X _]]. discriminate.
-  - destruct (is_fault_inv _ F) as [n Fn]. destruct (Nm _ _ _ E1) as (_ & M2 & _ & _ & _ & _ & _).
+  - destruct (is_fault_inv _ F) as [n Fn]. destruct (Nm _ _ _ E1) as (_ & M2 & _ & _ & _ & _ & _ & _).
     destruct (M2 n Fn) as [I1 | [n' I1]].
     + destruct (Hm _ _ _ E1 F I1) as [e' [X O]]. injection X as <-.
       destruct (Ha e O w1 I1) as (e2 & w2 & E2 & O2). rewrite E2 in H. injection H as <- <-. eauto.
@@ -338,11 +344,11 @@ Lemma FE_attempt_bind {A B} (m : M A) (k : option cerr -> M B) :
 Proof.
   intros Nm Hm Hn Ha Hs w r w' H F I. unfold bind, attempt, catch, ret in H. unfold bind in H.
   destruct (m w) as [[a|e|] w1] eqn:E1.
-  - destruct (is_fault_inv _ F) as [n Fn]. destruct (Nm _ _ _ E1) as (_ & M2 & _ & _ & _ & _ & _).
+  - destruct (is_fault_inv _ F) as [n Fn]. destruct (Nm _ _ _ E1) as (_ & M2 & _ & _ & _ & _ & _ & _).
     destruct (M2 n Fn) as [I1 | [n' I1]].
     + destruct (Hm _ _ _ E1 F I1) as [e [X _]]. discriminate.
     + apply (Hn _ _ _ H); [now rewrite I1 | exact I].
-  - destruct (is_fault_inv _ F) as [n Fn]. destruct (Nm _ _ _ E1) as (_ & M2 & _ & _ & _ & _ & _).
+  - destruct (is_fault_inv _ F) as [n Fn]. destruct (Nm _ _ _ E1) as (_ & M2 & _ & _ & _ & _ & _ & _).
     destruct (M2 n Fn) as [I1 | [n' I1]].
     + destruct (Hm _ _ _ E1 F I1) as [e' [X O]]. injection X as <-.
       destruct (Ha e O w1 I1) as (e2 & w2 & E2 & O2). rewrite E2 in H. injection H as <- <-. eauto.
@@ -359,7 +365,7 @@ Proof. intros O w I. exists e, w. auto. Qed.
 Lemma AT_attempt_andthen {A B} (m : M A) (k : M B) : nice m -> AT k -> AT (attempt m ;; k).
 Proof.
   intros Nm Hk w I. unfold andthen, bind, attempt, catch, ret. unfold bind.
-  destruct (m w) as [[a|e|] w1] eqn:E1; destruct (Nm _ _ _ E1) as (M1 & _ & _ & _ & _ & _ & _); destruct (M1 I) as [I1 NK];
+  destruct (m w) as [[a|e|] w1] eqn:E1; destruct (Nm _ _ _ E1) as (M1 & _ & _ & _ & _ & _ & _ & _); destruct (M1 I) as [I1 NK];
     try discriminate; now apply Hk.
 Qed.
 
